@@ -217,6 +217,18 @@ func (x *c10World) Apply(op bfs.Op) (fs []bfs.Finding) {
 	if faulted != "" || r.err != nil {
 		for b := range memSetBefore {
 			target := (real.Name == "Remove" && id != nil && string(id.blob) == b) || real.Name == "RemoveAll"
+			// without a fault, dropping an orphan (key no longer reported by a non-empty underlying list) is C07's required purge
+			keyHeld := false
+			if hi := identsBy[b]; hi != nil {
+				for _, k := range w.ua.Ring.Keys {
+					if ki := identsBy[string(k.Blob)]; ki != nil && bytes.Equal(ki.keyBlob, hi.keyBlob) {
+						keyHeld = true
+					}
+				}
+			}
+			if faulted == "" && !keyHeld {
+				continue
+			}
 			if memAfter[b] == 0 && !target {
 				add("fault:discards-memory-cert:"+real.Name, fmt.Sprintf("%s(%s) under fault %q (err=%v) discarded the valid in-memory certificate %s", op.Name, op.Arg, faulted, r.err, nameOf([]byte(b))))
 			}
@@ -436,9 +448,9 @@ func checkC10(c *ev.Ctx) {
 	for _, k := range uagent.AllFaults {
 		roots = append(roots, "noup:K1,c.cur:fault="+k)
 	}
-	depth := 3
+	depth := 4
 	if c.Thorough() {
-		depth = 4
+		depth = 5
 	}
 	runBFS(c, func(root string) bfs.World { return newC10World(c, root) }, roots, depth, 0)
 }
